@@ -127,6 +127,10 @@ def lin(f, op, depth=0, ld=99):
             if b.is_const():
                 return a.scale(b.c)
             return Lin(0, {"mul(%r,%r)" % tuple(sorted([a, b], key=repr)): 1})
+        if o == "xor" and i.ty != "i1" and (const_int(i.ops[1]) == -1 or const_int(i.ops[0]) == -1):
+            # ~x == -x - 1
+            x_ = i.ops[0] if const_int(i.ops[1]) == -1 else i.ops[1]
+            return lin(f, x_, depth + 1, ld).scale(-1).add(Lin(-1))
         if o == "shl":
             b = lin(f, i.ops[1], depth + 1, ld)
             if b.is_const() and 0 <= b.c < 62:
